@@ -35,11 +35,85 @@ theorem marksLeft_pastB (p : Pc) (m : Nat) (h : p.marksLeft = some m) : p.pastB 
   | sEnd => rfl
   | _ => simp [Pc.marksLeft] at h
 
+
+/-- inside `stop()`, before the join of the balance thread -/
+def Pc.preB : Pc → Bool
+  | .sLd | .sSt | .sJoinB => true
+  | _ => false
+
+theorem Q.stops_bump (q : Q) : q.bump.stops = q.stops := rfl
+theorem Q.recvd_bump (q : Q) : q.bump.recvd = q.recvd := rfl
+
+/-! ### `marksLeft` / `preB` of the helper program counters -/
+theorem ml_dispatchPc (x : Item) : (dispatchPc x).marksLeft = none := by cases x <;> rfl
+theorem ml_claimPc (ctx : PopCtx) (x : Item) : (claimPc ctx x).marksLeft = none := by cases ctx <;> cases x <;> rfl
+theorem ml_onEmpty (ctx : PopCtx) : ctx.onEmpty.marksLeft = none := by cases ctx <;> rfl
+theorem ml_afterSubmit (c : Cfg) (b : Bool) (id cid : Nat) : (afterSubmit c b id cid).marksLeft = none := by
+  unfold afterSubmit; split <;> simp [Pc.marksLeft]
+theorem ml_afterSize (c : Cfg) (p a id cid : Nat) : (afterSize c p a id cid).marksLeft = none := by
+  unfold afterSize; split <;> simp [Pc.marksLeft]
+theorem ml_afterLdRunB (v : Bool) : (afterLdRunB v).marksLeft = none := by cases v <;> rfl
+theorem ml_afterLdRunS_true : (afterLdRunS true).marksLeft = none := rfl
+theorem ml_afterJoinW (c : Cfg) (n : Nat) : (afterJoinW c n).marksLeft = some 0 := by unfold afterJoinW; split <;> rfl
+theorem ml_afterStore (c : Cfg) :
+    (afterStore c).marksLeft = none ∨ (afterStore c).marksLeft = some c.workers.length := by
+  unfold afterStore; split
+  · exact Or.inl rfl
+  · exact Or.inr (marksLeft_markChain c _)
+theorem ml_cont (c : Cfg) (x : Item) (k : Pc) (h : ContOK c (some x) k) (hx : x ≠ .stop) : k.marksLeft = none := by
+  cases k <;> first
+    | rfl
+    | (exfalso; rcases h.1 with h1 | h1 <;> simp_all)
+
+theorem preB_dispatchPc (x : Item) : (dispatchPc x).preB = false := by cases x <;> rfl
+theorem preB_claimPc (ctx : PopCtx) (x : Item) : (claimPc ctx x).preB = false := by cases ctx <;> cases x <;> rfl
+theorem preB_onEmpty (ctx : PopCtx) : ctx.onEmpty.preB = false := by cases ctx <;> rfl
+theorem preB_afterSubmit (c : Cfg) (b : Bool) (id cid : Nat) : (afterSubmit c b id cid).preB = false := by
+  unfold afterSubmit; split <;> rfl
+theorem preB_afterSize (c : Cfg) (p a id cid : Nat) : (afterSize c p a id cid).preB = false := by
+  unfold afterSize; split <;> rfl
+theorem preB_afterLdRunB (v : Bool) : (afterLdRunB v).preB = false := by cases v <;> rfl
+theorem preB_afterJoinW (c : Cfg) (n : Nat) : (afterJoinW c n).preB = false := by unfold afterJoinW; split <;> rfl
+theorem preB_markChain (c : Cfg) (n : Nat) : (markChain c n).preB = false := by
+  rcases markChain_cases c n with h | h | ⟨m, h⟩ <;> simp [h, Pc.preB]
+theorem preB_cont (c : Cfg) (x : Option Item) (k : Pc) (h : ContOK c x k) : k.preB = false := by
+  cases k <;> first
+    | rfl
+    | (exfalso; obtain ⟨_, n, hn⟩ := h; have := preB_markChain c n; rw [← hn] at this; simp [Pc.preB] at this)
+theorem preB_role (p : Pc) (h : p.preB = true) : p.role = .stopper := by
+  cases p <;> first | rfl | (simp [Pc.preB] at h)
+theorem preB_afterStore (c : Cfg) (h : (afterStore c).preB = true) : afterStore c = .sJoinB ∧ c.bal ≠ none := by
+  unfold afterStore at h ⊢; split
+  · rename_i hb; exact ⟨rfl, by cases hc : c.bal <;> simp_all⟩
+  · rename_i hb; rw [if_neg hb, preB_markChain] at h; cases h
+
+theorem markChain_sJoinW_lt (c : Cfg) (n m : Nat) (h : markChain c n = .sJoinW m) : m < c.workers.length := by
+  cases n with
+  | zero =>
+    simp only [markChain] at h; split at h
+    · cases h
+    · rename_i he; injection h with h; subst h
+      cases hw : c.workers with
+      | nil => simp [hw] at he
+      | cons a l => simp
+  | succ n => cases h
+theorem afterStore_sJoinW_lt (c : Cfg) (m : Nat) (h : afterStore c = .sJoinW m) : m < c.workers.length := by
+  unfold afterStore at h; split at h
+  · cases h
+  · exact markChain_sJoinW_lt c _ m h
+theorem afterJoinW_sJoinW_lt (c : Cfg) (n m : Nat) (h : afterJoinW c n = .sJoinW m) : m < c.workers.length := by
+  unfold afterJoinW at h; split at h
+  · injection h with h; omega
+  · cases h
+theorem cont_sJoinW_lt (c : Cfg) (x : Option Item) (m : Nat) (h : ContOK c x (.sJoinW m)) : m < c.workers.length := by
+  obtain ⟨_, n, hn⟩ := h
+  exact markChain_sJoinW_lt c n m hn.symm
+
 structure Inv6 (c : Cfg) (s : State) : Prop where
   c1 : c.workers.countP (doneB s) = s.g.recvd
   c2 : s.g.stops = s.markers
   c3 : ∀ t m, (s.pc t).marksLeft = some m → s.markers + m = c.workers.length
-  c4 : ∀ t, (s.pc t = .sLd ∨ s.pc t = .sSt ∨ s.pc t = .sJoinB) → s.markers = 0
+  c4 : ∀ t, (s.pc t).preB = true → s.markers = 0
   c5 : s.stopCalled = false → s.markers = 0
   w1 : ∀ w id cid p k, s.pc w = .rLSt id cid p → s.own w = some k → p = (s.l k).cells.length
   w2 : ∀ t n, s.pc t = .sJoinW n → n < c.workers.length
@@ -55,7 +129,7 @@ theorem Inv6.init (c : Cfg) : Inv6 c (State.init c) := by
     rw [this]; simp [State.init, Q.recvd]
   · simp [State.init, Q.stops]
   · intro t m h; rcases hp t with h1 | h1 | h1 <;> rw [h1] at h <;> simp [Pc.marksLeft] at h
-  · intro t h; simp [State.init]
+  · intro t _; simp [State.init]
   · intro _; simp [State.init]
   · intro w id cid p k h; rcases hp w with h1 | h1 | h1 <;> rw [h1] at h <;> cases h
   · intro t n h; rcases hp t with h1 | h1 | h1 <;> rw [h1] at h <;> cases h
